@@ -425,6 +425,9 @@ pub struct Totals {
     pub failures: BTreeMap<String, (u64, Vec<Value>)>,
     pub cap_hit: Option<String>,
     pub machinery_error: Option<String>,
+    /// states counted by an explicit-state search (takes precedence over the hash set)
+    pub bfs_states: u64,
+    pub extra: Map<String, Value>,
 }
 
 impl Totals {
@@ -692,7 +695,8 @@ pub fn conclude(spec: EvidenceSpec, totals: &Totals, wall: Duration) -> i32 {
     cov.insert("distinct_nontrivial".into(), json!(totals.nontrivial));
     cov.insert("rule".into(), json!(spec.rule));
     cov.insert("samples".into(), json!(totals.samples));
-    cov.insert("states".into(), json!(totals.states.len().max(totals.outcomes.len())));
+    let nstates = if totals.bfs_states > 0 { totals.bfs_states as usize } else { totals.states.len().max(totals.outcomes.len()) };
+    cov.insert("states".into(), json!(nstates));
     cov.insert("transitions".into(), json!(totals.transitions.max(totals.evals)));
     cov.insert(
         "traces_validated_against_impl".into(),
@@ -711,6 +715,9 @@ pub fn conclude(spec: EvidenceSpec, totals: &Totals, wall: Duration) -> i32 {
     cov.insert("known_findings_seen".into(), json!(known_hits));
     for (k, v) in spec.extra {
         cov.insert(k, v);
+    }
+    for (k, v) in &totals.extra {
+        cov.insert(k.clone(), v.clone());
     }
     let seed = std::env::var("VERIF_SEED")
         .ok()
